@@ -40,7 +40,7 @@ func runC11(c *Ctx) {
 		"(ack) the acknowledgement section of handleRequest is entered from each operation arm only with the lease in state Discover or Allocated established by a dominating test, the address acknowledged is lease.Addr.IP, taken from IPOffer only on the Discover path, and the refusal condition of the selecting arm contains the hardware, transaction-id, offered-address and leased-address mismatches. " +
 		"(free) DECLINE frees a lease only when server id, address and hardware address match; expiry frees by DHCPExpiry. (interleavings, two clauses) an address on offer to two clients is acknowledged once: findByIP sees outstanding offers or the commit of an offer is preceded by findByIP(lease.IPOffer) and a NAK when another lease holds it; handleDiscover keeps an old IPOffer only for an outstanding offer (or every site that frees a lease clears it). Not decided: uniqueness over arbitrary interleavings beyond these clauses, timing."
 	r.Rule("offer", "addresses are offered only if free in the lease table, unknown to the session and inside the subnet", 15)
-	r.Rule("ack", "acknowledgements require an outstanding offer or lease of the same client, address and transaction", 9)
+	r.Rule("ack", "acknowledgements require an outstanding offer or lease of the same client, address and transaction", 10)
 	r.Rule("free", "leases are freed only by their owner's DECLINE or by expiry", 4)
 
 	alloc := c.P.Method(dhcpRel, "Handler", "allocIPOffer")
@@ -372,6 +372,48 @@ func runC11(c *Ctx) {
 		r.Add(core.Obligation{Rule: "offer", Key: "offer outstanding offers are visible to the reservation lookup", Func: "(*dhcp4_spoofer.Handler).findByIP", Pos: pos, Status: st,
 			Basis:  fmt.Sprintf("findByIP compares the candidate with Lease.IPOffer: %v; the commit of an offer re-checks with findByIP: %v", seesOffers, recheck),
 			Detail: "findByIP matches Lease.Addr.IP only and the commit `lease.Addr.IP = lease.IPOffer` in handleRequest is not preceded by a refusal for 'another lease that is not free records the address' (a test for State == Allocated only misses a holder that is re-discovering): an address acknowledged to one client is acknowledged to a second one"})
+	}
+	// (ack) an offer is made only for an address the session tracks for nobody; by the time the client requests it another
+	// station may have shown up with it. The commit of an offer looks the address up in the session's host table again and
+	// refuses when a host with another MAC holds it.
+	if hr := c.P.Method(dhcpRel, "Handler", "handleRequest"); hr != nil {
+		core.EachInstr(hr, func(i ssa.Instruction) {
+			st, ok := i.(*ssa.Store)
+			if !ok || !strings.HasSuffix(shortLease(norm(st.Addr)), "LEASE.Addr.IP") || !strings.HasSuffix(shortLease(norm(st.Val)), "LEASE.IPOffer") {
+				return
+			}
+			okS := false
+			for _, nk := range callsIn(hr, nameIs("nakPacket")) {
+				nki := nk.(ssa.Instruction)
+				tracked, other := false, false
+				for _, g := range guardsOf(nki) {
+					t := shortLease(g.Text)
+					if !strings.Contains(t, "FindIP(recv.session,LEASE.IPOffer)") {
+						continue
+					}
+					if strings.HasSuffix(t, "==nil)") && !g.Pol {
+						tracked = true
+					}
+					if strings.HasPrefix(t, "!bytes.Equal(") && strings.Contains(t, ".MAC") {
+						other = true
+					}
+				}
+				if !tracked || !other {
+					continue
+				}
+				for _, fc := range callsIn(hr, nameIs("FindIP")) {
+					if fc.(ssa.Instruction).Block().Dominates(i.Block()) {
+						okS = true
+					}
+				}
+			}
+			s2 := core.Proved
+			if !okS {
+				s2 = core.Violated
+			}
+			r.Add(core.Obligation{Rule: "ack", Key: "ack the commit of an offer re-checks the session's host table", Func: core.FuncName(hr), Pos: c.P.Pos(core.PosOf(i)), Status: s2,
+				Basis: "session.FindIP(lease.IPOffer) dominates the commit; a host with another MAC is refused with a NAK", Detail: "handleRequest commits lease.Addr.IP = lease.IPOffer without looking the address up in the session's host table again: a station that started using the address after the offer was made (a static address, say) is tracked for another MAC, and the address is acknowledged all the same"})
+		})
 	}
 	// (offer) an old offer is not handed out again without going through allocIPOffer: on every path of handleDiscover to
 	// the `IPOffer.IsValid()` test, IPOffer was assigned on that path or the lease is an outstanding offer (state Discover)
